@@ -1018,3 +1018,23 @@ def replay(ctx, payload):
         else:
             g['trace'] = d['trace']
         check_value(ctx, parsers(), inp['type'], inp.get('seed'), g, 'replay')
+
+
+# ----------------------------------------------------------------------------- appended by builder bssrc2
+# `S.load_address()` of the regenerated TL-B parsers is `Rd.loadAddress`; Properties/C16Addr.lean (`c16_src_load_address`) proves it equal to
+# the REGENERATED `Slice.load_address` (Generated/SliceOps.lean, harness/translate/bsops.py).  The tie is re-made on every C16 run; a broken
+# obligation sends the address types through the oracle first (search mode).
+from ..translate import bsops as _BS
+
+SPEC['property_modules'] = list(SPEC.get('property_modules', [])) + ['C16Addr']
+SPEC['translators'] = list(SPEC['translators']) + [('slice.py load_address->Generated/SliceOps.lean', _BS.regenerator('SliceOps'))]
+_run_before_addr = run
+
+
+def run(ctx):
+    if ctx.search:
+        P = parsers()
+        run_types(ctx, P, ['MsgAddressExt', 'MsgAddressInt', 'CommonMsgInfo'], 200)
+        if ctx.failures:
+            return
+    _run_before_addr(ctx)
